@@ -27,6 +27,7 @@ class TapeRecorder:
     def __getattr__(self, basis_blade):
         if not re.match(r'^e[0-9a-fA-F]*$', basis_blade):
             raise AttributeError(f'{self.__class__.__name__} object has no attribute or basis blade {basis_blade}')
+        basis_blade, swaps = self.algebra._blade2canon(basis_blade)
         if basis_blade not in self.algebra.canon2bin:
             return self.__class__(
                 algebra=self.algebra,
@@ -42,9 +43,10 @@ class TapeRecorder:
                 keys=(0,)
             )
         else:
+            sign = '-' if swaps % 2 else ''
             return self.__class__(
                 algebra=self.algebra,
-                expr=f"({self.expr}[{idx}],)",
+                expr=f"({sign}{self.expr}[{idx}],)",
                 keys=(self.keys()[idx],)
             )
 
